@@ -18,16 +18,11 @@ theorem C16_inventory_complete :
   refine ⟨by decide, by decide, ?_⟩
   intro s; cases s <;> decide
 
-/-- Every inventory entry has a cancelling path that exists in the scanned source (services list + cancel calls on
-    the shutdown paths) — except the two children of `_create_peer_connection_race`.
-    FULL STATEMENT (not provable on this tree): `∀ k : Site, covered k = true`.  Missing: the race children hold no
-    handle and are orphaned when their creator is cancelled while waiting; the repair is proposed under C11
-    (fixes/C11-attempt-cleanup.patch) and is not path-visible to the scan. -/
-theorem C16_inventory_covered_partial (k : Site) (h1 : k ≠ .directConnect) (h2 : k ≠ .indirectConnect) :
-    covered k = true := covered_all k h1 h2
-
-theorem C16_inventory_covered_counterexample : covered .directConnect = false ∧ covered .indirectConnect = false := by
-  decide
+/-- Every inventory entry has a cancelling path that exists in the scanned source (services list, cancel calls on
+    the shutdown paths, and — for the two children of `_create_peer_connection_race`, which hold no handle — the
+    `except asyncio.CancelledError` handler of their creator that cancels the pending children, waits for them and
+    re-raises, together with a covered path for every library task the creator runs in). -/
+theorem C16_inventory_covered (k : Site) : covered k = true := covered_all k
 
 /-! ## the burst -/
 
@@ -215,25 +210,25 @@ theorem C16_stop_final (c : Config) (pre post : List Op) :
     let st0 := (run c init pre).1
     st0.started = true → st0.stopped = false →
     let st1 := (step c st0 .stop).1
-    alive st1 = [] ∧ openSockets st1 = 0 ∧
+    alive c st1 = [] ∧ openSockets st1 = 0 ∧
     (∀ o ∈ (run c st1 post).2, o = .invalid ∨ o = .refused) ∧
-    alive (run c st1 post).1 = [] ∧ openSockets (run c st1 post).1 = 0 := by
+    alive c (run c st1 post).1 = [] ∧ openSockets (run c st1 post).1 = 0 := by
   intro st0 hs hp st1
   have hi : Inv st0 := inv_run c pre init inv_init
   have hq : Quiet st1 := by
     show Quiet (step c st0 .stop).1
     simp only [step, hs, hp, and_self, if_true]
-    exact quiet_doStop st0 hi hs
+    exact quiet_doStop c st0 hi hs
   have hr := quiet_run c post st1 hq
-  exact ⟨(quiet_alive st1 hq).1, (quiet_alive st1 hq).2, hr.2, (quiet_alive _ hr.1).1, (quiet_alive _ hr.1).2⟩
+  exact ⟨(quiet_alive c st1 hq).1, (quiet_alive c st1 hq).2, hr.2, (quiet_alive c _ hr.1).1, (quiet_alive c _ hr.1).2⟩
 
 /-! ## the hypotheses are satisfiable by non-trivial reachable states -/
 
 private def exCfg : Config :=
   { friends := ["f1", "f2"], liked := ["rock"], hated := ["pop"], favorites := ["room1"], reconnectAuto := true,
-    requestTimeout := true, wishlist := 1, clearPort := 60000, obfPort := 60001 }
+    requestTimeout := true, wishlist := 1, clearPort := 60000, obfPort := 60001, race := true, files := 2 }
 
-/-- a session with pending work (search timer, wishlist, potential parent), lost by a read error, reconnected after
+/-- a session with pending work (search timer, wishlist, potential parent in race mode), lost by a read error, reconnected after
     21 ticks and logged in again: two sessions initialised, one destroyed, one present -/
 example :
     let r := run exCfg init ([.start, .login, .populate, .search, .wishlistInterval, .potentialParents,
@@ -242,8 +237,10 @@ example :
 
 /-- stop() in the middle of the reconnect delay: the premises of `C16_stop_final` hold and work was pending -/
 example :
-    let st0 := (run exCfg init [.start, .login, .search, .potentialParents, .loss .writeError, .tick, .tick]).1
-    st0.started = true ∧ st0.stopped = false ∧ st0.wd = .sleeping 19 ∧ (alive st0).length = 6 := by decide
+    let st0 := (run exCfg init [.start, .login, .search, .potentialParents, .searchRequest, .loss .writeError,
+      .tick, .tick]).1
+    -- watchdog, 3 managers' tasks, search timer, potential parent + search reply, each with 2 race children
+    st0.started = true ∧ st0.stopped = false ∧ st0.wd = .sleeping 19 ∧ (alive exCfg st0).length = 11 := by decide
 
 example : exCfg.WF := by decide
 
